@@ -1,0 +1,79 @@
+// +build verif
+
+// Accessors used by the external verification harness (/verif, property C14:
+// RLP round trip / canonical decoding).  Compiled only with -tags verif;
+// nothing here changes behaviour.
+
+package state
+
+import (
+	"math/big"
+
+	"github.com/youchainhq/go-youchain/common"
+)
+
+// VerifC14KindStat mirrors the unexported fields of ValKindStat in the order
+// of its RLP encoding.
+type VerifC14KindStat struct {
+	OnlineStake          *big.Int
+	OnlineToken          *big.Int
+	OnlineCount          uint64
+	OfflineStake         *big.Int
+	OfflineToken         *big.Int
+	OfflineCount         uint64
+	RewardsResidue       *big.Int
+	RewardsDistributable *big.Int
+}
+
+// VerifC14MakeKindStat builds a ValKindStat holding exactly the given fields.
+func VerifC14MakeKindStat(f VerifC14KindStat) *ValKindStat {
+	return &ValKindStat{
+		onlineStake:          f.OnlineStake,
+		onlineToken:          f.OnlineToken,
+		onlineCount:          f.OnlineCount,
+		offlineStake:         f.OfflineStake,
+		offlineToken:         f.OfflineToken,
+		offlineCount:         f.OfflineCount,
+		rewardsResidue:       f.RewardsResidue,
+		rewardsDistributable: f.RewardsDistributable,
+	}
+}
+
+// VerifC14ViewKindStat returns the unexported fields of a ValKindStat.
+func VerifC14ViewKindStat(v *ValKindStat) VerifC14KindStat {
+	return VerifC14KindStat{
+		OnlineStake:          v.onlineStake,
+		OnlineToken:          v.onlineToken,
+		OnlineCount:          v.onlineCount,
+		OfflineStake:         v.offlineStake,
+		OfflineToken:         v.offlineToken,
+		OfflineCount:         v.offlineCount,
+		RewardsResidue:       v.rewardsResidue,
+		RewardsDistributable: v.rewardsDistributable,
+	}
+}
+
+// VerifC14NewPending returns a pendingRelationship (as stored under the
+// "pendingr" key of the staking trie) filled through its production Add path.
+func VerifC14NewPending(pairs [][2]common.Address) interface{} {
+	p := newPendingRelationship()
+	for _, dv := range pairs {
+		p.Add(dv[0], dv[1])
+	}
+	return p
+}
+
+// VerifC14PendingView returns the content of a pendingRelationship.
+func VerifC14PendingView(x interface{}) (pairs [][2]common.Address, dCount, vCount map[common.Address]uint16) {
+	p := x.(*pendingRelationship)
+	for _, bi := range p.r {
+		d, v := bi.Split()
+		pairs = append(pairs, [2]common.Address{d, v})
+	}
+	return pairs, p.delegatorPendingCount, p.validatorPendingCount
+}
+
+// VerifC14NewStakingRecord wraps a Record the way updateStakingTrie encodes it.
+func VerifC14NewStakingRecord(r Record) interface{} {
+	return &stakingRecord{record: r}
+}
